@@ -16,6 +16,7 @@ typedef struct { int call, status, complete; uint64_t outh, tabh, cbh; } obs_t;
 typedef struct {
 	int kind;                 /* 0 encoder, 1 decoder */
 	cfg_t c; uint32_t n; int api, finish, cbmode; uint32_t nsub; uint32_t sub[2 * MAXN];
+	int both;                 /* decoder scripts: the instance is created as OF_ENCODER_AND_DECODER */
 	unsigned verb;            /* verbosity given to of_create_codec_instance (the library keeps it in a process global) */
 	/* runtime */
 	int pc, nsteps, configured; of_session_t *ses; uint8_t *sym[MAXN]; void *tab[MAXN]; void *stab[MAXN];
@@ -63,9 +64,17 @@ static int gen_scripts(uint64_t caseseed, script_t *S)
 			default: break;   /* identical twin */
 			}
 		}
+		int pair_with_encoder = 0;
+		if (i == 1 && rng_below(&r, 3) == 0) {
+			/* an encoder and a decoder (every third time an encoder+decoder instance) of exactly the same code, alive side by side:
+			 * whatever the library shares between instances of equal parameters must not be consumed by the one that decodes */
+			S[0].kind = 0; S[0].both = 0; S[0].nsteps = 2 + 1 + (int)S[0].c.r + 1;
+			s->c = S[0].c; pair_with_encoder = 1;
+		}
 		s->n = s->c.k + s->c.r;
-		s->kind = (int)rng_below(&r, 3) == 0 ? 0 : 1;
-		s->verb = rng_below(&r, 3) == 0 ? 1 + rng_below(&r, 2) : 0;   /* what the library prints goes to /dev/null; what it computes must not change */
+		s->kind = pair_with_encoder ? 1 : ((int)rng_below(&r, 3) == 0 ? 0 : 1);
+		s->verb = rng_below(&r, 3) == 0 ? 1 + rng_below(&r, 2) : 0;
+		s->both = s->kind == 1 && rng_below(&r, 3) == 0;   /* what the library prints goes to /dev/null; what it computes must not change */
 		if (s->kind == 1) {
 			s->api = (int)rng_below(&r, 3) == 0; s->finish = rng_below(&r, 4) != 0; s->cbmode = rng_below(&r, 3) == 0 ? 1 + (int)rng_below(&r, 3) : 0;
 			uint32_t m2 = 0; uint32_t perm[MAXN];
@@ -124,7 +133,7 @@ static void observe(script_t *s, int call, int status, uint64_t outh)
 static void script_step(script_t *s)
 {
 	of_status_t st; char pb[32]; uint32_t k = s->c.k; int pc = s->pc++;
-	if (pc == 0) { st = of_create_codec_instance(&s->ses, (of_codec_id_t)s->c.codec, s->kind ? OF_DECODER : OF_ENCODER, s->verb); observe(s, CL_CREATE, st, 0); return; }
+	if (pc == 0) { st = of_create_codec_instance(&s->ses, (of_codec_id_t)s->c.codec, s->kind ? (s->both ? OF_ENCODER_AND_DECODER : OF_DECODER) : OF_ENCODER, s->verb); observe(s, CL_CREATE, st, 0); return; }
 	if (pc == 1) { cfg_params(&s->c, pb); st = of_set_fec_parameters(s->ses, (of_parameters_t *)pb); if (st == OF_STATUS_OK) s->configured = 1; observe(s, CL_SETP, st, 0); if (st != OF_STATUS_OK) s->pc = s->nsteps - 1; return; }
 	if (pc == s->nsteps - 1) {
 		/* decoded symbols belong to the application: collect them before release */
